@@ -77,12 +77,13 @@ type Obs struct {
 	Dead    []int    `json:"dead"`
 	Accepts int      `json:"accepts"` // connections returned by all members' Accept calls together
 	// property monitors evaluated on the Go side
-	Eff      []int  `json:"eff"`               // effective schedule: one entry per atomic step actually taken, in order
-	Overlap  bool   `json:"overlap,omitempty"` // a leave ran to completion while a join was parked between lookup and mutation
-	Blocked  int    `json:"blocked,omitempty"` // joins/leaves that had to wait for a parked join (controller lock held)
-	LostLive bool   `json:"lost_live,omitempty"`
-	Orphan   bool   `json:"orphan,omitempty"`
-	Note     string `json:"note,omitempty"`
+	Eff       []int  `json:"eff"`               // effective schedule: one entry per atomic step actually taken, in order
+	Overlap   bool   `json:"overlap,omitempty"` // a leave ran to completion while a join was parked between lookup and mutation
+	Blocked   int    `json:"blocked,omitempty"` // joins/leaves that had to wait for a parked join (controller lock held)
+	LostLive  bool   `json:"lost_live,omitempty"`
+	WrongRecv bool   `json:"wrong_recv,omitempty"` // an http request was answered by the backend of somebody who is not a member of the group on that route
+	Orphan    bool   `json:"orphan,omitempty"`
+	Note      string `json:"note,omitempty"`
 }
 
 // thread states (codes as Corr/C13.v tcode)
@@ -206,9 +207,13 @@ type world struct {
 	nReq   int
 	closer []func()
 
-	accepts  int32 // connections returned by members' Accept (atomic)
-	manual   bool  // members' Accept is called by the choreography, not by a loop
-	parked   []int // join threads parked at the after_lookup gate, in arrival order
+	httpLn   net.Listener          // kind http: a real http.Server in front of the HTTPReverseProxy
+	backends map[int]net.Listener  // kind http: the labelled backend of member m
+	stall    map[int]chan struct{} // kind http: members whose CreateConnFn waits for this channel
+	dialed   []int                 // kind http: members whose CreateConnFn has been called, in order
+	accepts  int32                 // connections returned by members' Accept (atomic)
+	manual   bool                  // members' Accept is called by the choreography, not by a loop
+	parked   []int                 // join threads parked at the after_lookup gate, in arrival order
 	obs      *Obs
 	progress func(tid int)
 }
@@ -277,6 +282,14 @@ func newWorld(c *Case) (*world, error) {
 		w.rt = vhost.NewRouters()
 		w.rp = vhost.NewHTTPReverseProxy(vhost.HTTPReverseProxyOptions{}, w.rt)
 		w.httpc = group.NewHTTPGroupController(w.rt)
+		w.backends, w.stall = map[int]net.Listener{}, map[int]chan struct{}{}
+		l, err := net.Listen("tcp", addr1+":0")
+		if err != nil {
+			return nil, err
+		}
+		w.httpLn = l
+		go func() { _ = (&http.Server{Handler: w.rp}).Serve(l) }()
+		w.closer = append(w.closer, func() { l.Close() })
 	case 2:
 		l, err := net.Listen("tcp", addr1+":0")
 		if err != nil {
@@ -299,13 +312,143 @@ func (w *world) routeCfg(r *Req, tid int) vhost.RouteConfig {
 		return vhost.RouteConfig{
 			Domain: dname(at(r.Par, 0)), Location: lname(at(r.Par, 1)), RouteByHTTPUser: sname("u", at(r.Par, 2)),
 			Username: sname("n", at(r.Par, 3)), Password: sname("p", at(r.Par, 4)),
-			CreateConnFn: func(string) (net.Conn, error) { return &lblConn{label: r.M}, nil },
+			CreateConnFn: w.memberDial(r.M),
 		}
 	}
 	return vhost.RouteConfig{
 		Domain: dname(at(r.Par, 0)), RouteByHTTPUser: sname("u", at(r.Par, 1)),
 		Username: sname("n", at(r.Par, 2)), Password: sname("p", at(r.Par, 3)),
 	}
+}
+
+// the backend of http member m: answers every request on a connection (keep-alive) with its label
+func (w *world) backend(m int) (net.Listener, error) {
+	w.mu.Lock()
+	defer w.mu.Unlock()
+	if l, ok := w.backends[m]; ok {
+		return l, nil
+	}
+	l, err := net.Listen("tcp", addr1+":0")
+	if err != nil {
+		return nil, err
+	}
+	w.backends[m] = l
+	w.closer = append(w.closer, func() { l.Close() })
+	body := fmt.Sprintf("M%d;", m)
+	go func() {
+		for {
+			c, err := l.Accept()
+			if err != nil {
+				return
+			}
+			go func() {
+				defer c.Close()
+				rd := bufio.NewReader(c)
+				for {
+					for { // one request head
+						line, err := rd.ReadString('\n')
+						if err != nil {
+							return
+						}
+						if line == "\r\n" || line == "\n" {
+							break
+						}
+					}
+					if _, err := fmt.Fprintf(c, "HTTP/1.1 200 OK\r\nContent-Length: %d\r\n\r\n%s", len(body), body); err != nil {
+						return
+					}
+				}
+			}()
+		}
+	}()
+	return l, nil
+}
+
+// CreateConnFn of http member m: a real connection to its backend; may be frozen by the choreography
+func (w *world) memberDial(m int) func(string) (net.Conn, error) {
+	return func(string) (net.Conn, error) {
+		w.mu.Lock()
+		w.dialed = append(w.dialed, m)
+		st := w.stall[m]
+		l := w.backends[m]
+		w.mu.Unlock()
+		if st != nil {
+			<-st
+		}
+		if l == nil {
+			return nil, errors.New("no backend")
+		}
+		return net.DialTimeout("tcp", l.Addr().String(), time.Second)
+	}
+}
+
+// one request through the real reverse proxy: GET, or CONNECT when connect is set.
+// returns the thread state and the label of the answering backend
+func (w *world) httpRequest(r *Req, connect bool, timeout time.Duration) (int, int) {
+	dom, loc, usr := dname(at(r.R, 0)), lname(at(r.R, 1)), sname("u", at(r.R, 2))
+	cfg := w.rp.GetRouteConfig(dom, loc, usr)
+	isGroup := cfg != nil && cfg.Location == loc && cfg.RouteByHTTPUser == usr && cfg.ChooseEndpointFn != nil
+	parse := func(body string) (int, int) {
+		var m int
+		if _, err := fmt.Sscanf(body, "M%d;", &m); err != nil {
+			return sCStranded, 0
+		}
+		return sCTo, m
+	}
+	status, body := 0, ""
+	if connect {
+		c, err := net.DialTimeout("tcp", w.httpLn.Addr().String(), time.Second)
+		if err != nil {
+			return sCStranded, 0
+		}
+		defer c.Close()
+		_ = c.SetDeadline(time.Now().Add(timeout))
+		head := "CONNECT " + dom + ":80 HTTP/1.1\r\nHost: " + dom + "\r\n"
+		if usr != "" {
+			head += "Authorization: Basic " + base64.StdEncoding.EncodeToString([]byte(usr+":")) + "\r\n"
+		}
+		if _, err := c.Write([]byte(head + "\r\n")); err != nil {
+			return sCStranded, 0
+		}
+		resp, err := http.ReadResponse(bufio.NewReader(c), nil)
+		if err != nil {
+			return sCStranded, 0
+		}
+		b := make([]byte, 16)
+		n, _ := resp.Body.Read(b)
+		status, body = resp.StatusCode, string(b[:n])
+	} else {
+		path := loc
+		if path == "" {
+			path = "/"
+		}
+		req, err := http.NewRequest("GET", "http://"+w.httpLn.Addr().String()+path, nil)
+		if err != nil {
+			return sCStranded, 0
+		}
+		req.Host = dom
+		if usr != "" {
+			req.SetBasicAuth(usr, "")
+		}
+		cl := &http.Client{Timeout: timeout, Transport: &http.Transport{DisableKeepAlives: true}}
+		resp, err := cl.Do(req)
+		if err != nil {
+			return sCStranded, 0
+		}
+		b := make([]byte, 16)
+		n, _ := resp.Body.Read(b)
+		resp.Body.Close()
+		status, body = resp.StatusCode, string(b[:n])
+	}
+	switch {
+	case status == 200:
+		return parse(body)
+	case status == 404 && !isGroup:
+		return sCRefused, 0
+	case status == 404:
+		return sCNoFunc, 0 // the route of a group is there, but nobody could be dialled
+	}
+	return sCStranded, 0
 }
 
 func classify(err error) int {
@@ -346,6 +489,9 @@ func (w *world) doJoin(tid int, r *Req) joinRes {
 		}
 		return joinRes{real: real, ln: l}
 	case 1:
+		if _, err := w.backend(r.M); err != nil {
+			return joinRes{code: 9}
+		}
 		err := w.httpc.Register(mname(r.M), gname(r.Group), kname(r.Key), w.routeCfg(r, tid))
 		return joinRes{code: classify(err)}
 	default:
@@ -537,33 +683,12 @@ func (w *world) stepConn(tid int, t *thread, r *Req, o *Obs) error {
 		if t.st != sInit {
 			return nil
 		}
-		dom, loc, usr := dname(at(r.R, 0)), lname(at(r.R, 1)), sname("u", at(r.R, 2))
-		cfg := w.rp.GetRouteConfig(dom, loc, usr)
-		if cfg == nil || cfg.Location != loc || cfg.RouteByHTTPUser != usr || cfg.ChooseEndpointFn == nil {
-			t.st = sCRefused
-			if w.liveMemberOn(r.R) {
-				o.LostLive = true // the route of a group with members is not in the route table
-			}
-			return nil
-		}
-		var c net.Conn
-		var err error
+		// through the real HTTPReverseProxy; a CONNECT every other time where the route allows it (a
+		// CONNECT has no path, so it only matches a route without location)
 		w.nReq++
-		if w.nReq%2 == 0 {
-			// the path of the reverse proxy: Rewrite chooses the endpoint, DialContext connects by endpoint
-			ep, _ := cfg.ChooseEndpointFn()
-			c, err = cfg.CreateConnByEndpointFn(ep, "")
-		} else {
-			c, err = cfg.CreateConnFn("")
-		}
-		if err != nil {
-			t.st = sCNoFunc
-			if w.liveMemberOn(r.R) {
-				o.LostLive = true
-			}
-			return nil
-		}
-		t.st, t.val = sCTo, c.(*lblConn).label
+		connect := at(r.R, 1) == 0 && w.nReq%2 == 0
+		t.st, t.val = w.httpRequest(r, connect, 3*time.Second)
+		w.judgeHTTP(t, r, o)
 		return nil
 	}
 	switch t.st {
@@ -773,6 +898,11 @@ func runCase(c *Case, progress func(tid int)) (*Obs, error) {
 			return nil, err
 		}
 		c.Sched = nil
+	case "stall":
+		if err := w.stallDial(o); err != nil {
+			return nil, err
+		}
+		c.Sched = nil
 	}
 	for _, tid := range c.Sched {
 		if tid < 0 || tid >= len(c.Reqs) {
@@ -892,6 +1022,93 @@ func runCase(c *Case, progress func(tid int)) (*Obs, error) {
 		f()
 	}
 	return o, nil
+}
+
+func (w *world) judgeHTTP(t *thread, r *Req, o *Obs) {
+	if t.st != sCTo {
+		if w.liveMemberOn(r.R) {
+			o.LostLive = true // no answer from a group with members
+		}
+		return
+	}
+	for i, x := range w.th {
+		if x.st == sMember && w.c.Reqs[i].M == t.val && sameRes(x.res, r.R) {
+			return
+		}
+	}
+	o.WrongRecv = true
+}
+
+// stall: requests [join A; join B; join C; conn; leave C; conn], http.  The dial of member B is frozen;
+// the first request is rotated to B and waits in B's CreateConnFn; meanwhile C leaves (a writer on the
+// group's lock) and a second request arrives: it must be answered by A at once.
+func (w *world) stallDial(o *Obs) error {
+	if w.c.Kind != 1 || len(w.c.Reqs) != 6 {
+		return errors.New("stall: bad case")
+	}
+	for _, tid := range []int{0, 1, 2} {
+		if err := w.seqStep(tid, o); err != nil {
+			return err
+		}
+		if w.th[tid].st != sMember {
+			return errors.New("stall: join refused")
+		}
+	}
+	frozen := w.c.Reqs[1].M
+	gate := make(chan struct{})
+	w.mu.Lock()
+	w.stall[frozen] = gate
+	w.mu.Unlock()
+	type res struct{ st, val int }
+	first := make(chan res, 1)
+	go func() {
+		st, val := w.httpRequest(&w.c.Reqs[3], false, 8*time.Second)
+		first <- res{st, val}
+	}()
+	reached := false
+	for i := 0; i < 200 && !reached; i++ {
+		time.Sleep(5 * time.Millisecond)
+		w.mu.Lock()
+		for _, m := range w.dialed {
+			reached = reached || m == frozen
+		}
+		w.mu.Unlock()
+	}
+	if !reached {
+		close(gate)
+		return errors.New("stall: the first request was not rotated to the frozen member")
+	}
+	w.took(3)
+	left := make(chan struct{})
+	jr := &w.c.Reqs[2]
+	go func() {
+		w.httpc.UnRegister(mname(jr.M), gname(jr.Group), w.routeCfg(jr, 2))
+		close(left)
+	}()
+	select {
+	case <-left:
+	case <-time.After(300 * time.Millisecond): // (still waiting: recorded below)
+	}
+	w.th[2].st, w.th[2].val = sLeft, 0
+	w.th[4].st = sDone
+	w.took(4)
+	t5 := w.th[5]
+	t5.st, t5.val = w.httpRequest(&w.c.Reqs[5], false, 2*time.Second)
+	w.judgeHTTP(t5, &w.c.Reqs[5], o)
+	w.took(5)
+	close(gate)
+	select {
+	case r := <-first:
+		w.th[3].st, w.th[3].val = r.st, r.val
+	case <-time.After(10 * time.Second):
+		return errStuck
+	}
+	select {
+	case <-left:
+	case <-time.After(10 * time.Second):
+		return errStuck
+	}
+	return nil
 }
 
 // ---- choreographies that need more than the two gates ----
